@@ -270,3 +270,112 @@ def is_preserving_copy(prog, body, adt):
         if f != ("field", ("arg", 1), i):
             return False
     return True
+
+
+# ------------------------------------------------------------------ type-directed leaf enumeration
+LEAF_ADTS = {"bls12_381::Scalar", "bls12_381::G1Affine", "bls12_381::G2Affine", "bls12_381::G1Projective",
+             "bls12_381::G2Projective", "bls12_381::scalar::Scalar", "bls12_381::g1::G1Affine",
+             "bls12_381::g2::G2Affine", "bls12_381::g1::G1Projective", "bls12_381::g2::G2Projective"}
+
+
+def is_leaf_ty(t):
+    if t[0] == "prim":
+        return True
+    if t[0] == "param":
+        return True      # a generic group element G
+    if t[0] == "adt" and (t[1] in LEAF_ADTS or t[1].startswith("bls12_381::")):
+        return True
+    if t[0] == "array" and is_leaf_ty(t[1]) and t[1][0] == "prim":
+        return True
+    return False
+
+
+def subst_params(t, env):
+    if not env:
+        return t
+    k = t[0]
+    if k == "param":
+        return env.get(t[1], t)
+    if k == "adt":
+        return ("adt", t[1], tuple(subst_params(a, env) for a in t[2]))
+    if k in ("ref", "ptr"):
+        return (k, t[1], subst_params(t[2], env))
+    if k == "array":
+        n = t[2]
+        if not isinstance(n, int) and n in env and env[n][0] == "const":
+            n = env[n][1]
+        return ("array", subst_params(t[1], env), n)
+    if k == "tuple":
+        return ("tuple", tuple(subst_params(a, env) for a in t[1]))
+    if k == "const" and not isinstance(t[1], int) and t[1] in env:
+        return env[t[1]]
+    return t
+
+
+def type_leaves(prog, ty, base, path=()):
+    """Yield (term, leaf type, path of (adt, field index) steps, under_each) for every atom of a value
+    of type `ty` rooted at term `base`.  Arrays of scalars are one vector leaf; arrays of aggregates
+    are entered through the canonical element symbol ('E', array term)."""
+    k = ty[0]
+    if k == "adt" and ty[1].endswith("boxed::Box"):
+        yield from type_leaves(prog, ty[2][0], base, path)
+        return
+    if is_leaf_ty(ty):
+        yield base, ty, path
+        return
+    if k == "array":
+        if is_leaf_ty(ty[1]) and ty[1][0] == "prim":
+            yield base, ty, path
+            return
+        if is_leaf_ty(ty[1]):
+            # vector of scalars / group elements: one atom per element, reported as a whole
+            yield ("E", base), ty, path + (("each", ty[2]),)
+            return
+        yield from type_leaves(prog, ty[1], ("E", base), path + (("each", ty[2]),))
+        return
+    if k == "tuple":
+        for i, t in enumerate(ty[1]):
+            yield from type_leaves(prog, t, fld(base, i), path + (("tuple", i),))
+        return
+    if k == "adt":
+        rec = prog.adts.get(ty[1])
+        if rec is None:
+            yield base, ty, path
+            return
+        env = {}
+        for g, a in zip(rec["generics"], ty[2]):
+            env[g] = a
+        if len(rec["variants"]) != 1:
+            yield base, ty, path
+            return
+        for i, f in enumerate(rec["variants"][0]["fields"]):
+            ft = subst_params(f["t"], env)
+            yield from type_leaves(prog, ft, fld(base, i), path + ((ty[1], i),))
+        return
+    yield base, ty, path
+
+
+def project_path(S, value, path):
+    """Follow a type_leaves path on an engine value."""
+    v = value
+    for step in path:
+        if step[0] == "each":
+            v = S.eng.index_value(v if v[0] != "box" else v[1], ("isym",))
+        else:
+            while v[0] == "box":
+                v = v[1]
+            v = S.eng.proj_field(v, step[1])
+    return v
+
+
+def contains_head(t, head, _memo=None):
+    if _memo is None:
+        _memo = set()
+    if not isinstance(t, tuple) or not t:
+        return False
+    if id(t) in _memo:
+        return False
+    if t[0] == head:
+        return True
+    _memo.add(id(t))
+    return any(contains_head(x, head, _memo) for x in t)
